@@ -146,7 +146,8 @@ def foreign_tokens(blocks, fmts):
 class C02(Property):
     ID = "C02"
     SESSIONS = ["s0", "s1"]
-    RUNS = {"quick": (5000, 5000), "thorough": (100000, 100000)}
+    RUNS = {"quick": (3000, 3000), "thorough": (60000, 60000)}
+    MUST_REACH = {"probes": ["crlf", "no_final_newline", "empty_last_block", "nondefault_table_index", "file_larger_than_64KiB", "recovery_after_fault"], "faults": ["crash", "enospc", "eio_write", "eio_read", "short_write", "short_read", "eintr", "open_fail"]}
 
     def config(self, rng, tier, faulty):
         cfg = {
